@@ -246,7 +246,7 @@ func handTargets() []target {
 	add("debug-stack", "(defun ds () (debug-stack)) (ds)")
 	add("fun-in-map", "(sorted-map 'f (lambda (x) x) 'g car)")
 	add("time/format", "(time:format-rfc3339 (time:parse-rfc3339 \"2020-01-02T03:04:05Z\"))")
-	add("math", "(list (math:sqrt 2) (math:pow 2 0.5) (math:floor 2.5))")
+	add("math", "(list (math:sqrt 2) (math:ceil 2.5) (math:floor 2.5))")
 	add("base64", "(base64:encode (to-bytes \"hello\"))")
 	return ts
 }
